@@ -101,6 +101,13 @@ func c09Universe() []univ.Val {
 	add("i_2e32m1", ref.Int(1<<32-1), 1<<32-1)
 	add("f_m1", ref.Float(-1), -1.0)
 	add("s_97", "97", "97")
+	// maps of equal size whose keys differ, some bound to nil (a missing key is not a key bound to nil)
+	add("m_xnil", ref.NewMap("x", nil), map[string]any{"x": nil})
+	add("m_y1", ref.NewMap("y", ref.Int(1)), map[string]any{"y": 1})
+	add("m_ynil", ref.NewMap("y", nil), map[string]any{"y": nil})
+	add("m_xnil_z2", ref.NewMap("x", nil, "z", ref.Int(2)), map[string]any{"x": nil, "z": 2})
+	add("m_y1_z2", ref.NewMap("y", ref.Int(1), "z", ref.Int(2)), map[string]any{"y": 1, "z": 2})
+	add("l_m_xnil", univ.L(ref.NewMap("x", nil)), []any{map[string]any{"x": nil}})
 	add("m_e_acute", ref.NewMap("é", ref.Int(1), "97", ref.Int(2)), map[string]any{"é": 1, "97": 2})
 	add("l_s_a1e", univ.L("a", "1", "é", "97"), []string{"a", "1", "é", "97"})
 	add("l_i_97", univ.L(ref.Int(97), ref.Int(49)), []int{97, 49})
